@@ -277,6 +277,8 @@ def copyFromFields (overrides : List (String × String)) (fs : List Field)
   match fs with
   | [] => .ok st
   | f :: rest =>
+    -- the placeholder of a message without fields exists in the schema only
+    if f.info.isPlaceholder then copyFromFields overrides rest tfAttrs st else
     match copyFromField overrides f tfAttrs st with
     | .ok st' => copyFromFields overrides rest tfAttrs st'
     | .panic w => .panic w
